@@ -68,6 +68,74 @@ def position_matrix():
     return out
 
 
+# ------------------------------------------------------------------------------------------
+# a mention hidden inside another mention's call: host x slot x statement context
+# ------------------------------------------------------------------------------------------
+ASSIGN_LIKE = ["PAssignValue", "PAugAssignValue", "PAnnAssignValue", "PAttrAssignValue", "PAttrAugAssignValue", "PAttrAnnAssignValue",
+               "PSubscriptAssignValue", "PChainAssignValue", "PTupleAssignValue", "PReturnValue", "PBody", "PClassAssignValue", "PClassBody",
+               "PYieldValue", "PWalrusValue"]
+HOSTS = ["counted", "counted_local", "function", "selfcall", "builtin"]
+
+
+def host_kind(host):
+    """(imports, classes, kind) of the call that hosts the nested mention"""
+    if host == "counted":
+        return [("from", "Host")], [], ("inst", ("", "Host"))
+    if host == "counted_local":
+        return [], ["Host"], ("inst", ("", "Host"))
+    if host == "function":
+        return [], [], ("inst", ("", "make_host"))
+    if host == "selfcall":
+        return [], [], ("call", "self", "build")
+    return [], [], ("inst", ("", "dict"))
+
+
+def place(m):
+    """members holding the single mention m"""
+    if cg.POS[m[1]][1] == "c":
+        return [("stmt", m), ("method", dict(name="run", decos=[], params=[], ret=None, body=[]))]
+    return [("method", dict(name="run", decos=[], params=[], ret=None, body=[m]))]
+
+
+def nested_matrix():
+    out = []
+    inner = (("inst", ("", "Inner")), [])
+    positions = EXPR_POS + ["PNestedDefDecorator"]
+    rot = 0
+    for pos in positions:
+        if pos in ASSIGN_LIKE:
+            combos = [(h, sl) for h in HOSTS for sl in cg.SLOTS]
+        else:
+            # every (host, slot) pair is covered several times across the remaining positions
+            all_pairs = [(h, sl) for h in HOSTS for sl in cg.SLOTS]
+            combos = [all_pairs[(rot + 7 * i) % len(all_pairs)] for i in range(4)]
+            rot += 3
+        for host, slot in combos:
+            imps, classes, hk = host_kind(host)
+            if host == "selfcall" and cg.POS[pos][1] != "m":
+                hk = ("call", "other", "build")
+            m = (hk, pos, [(slot, inner)])
+            cls = dict(name="K", bases=[], members=place(m))
+            out.append(mk_case(dict(imports=imps + [("from", "Inner")], classes=classes), cls, "nested",
+                               {"position": pos, "form": "nested", "host": host, "slot": slot}))
+    # deeper and wider: Host(Mid(Inner()), kw0=Other(*[Deep()])), one more argument raises the count by one
+    for pos in ASSIGN_LIKE:
+        for host in ("counted", "function", "selfcall"):
+            imps, classes, hk = host_kind(host)
+            if host == "selfcall" and cg.POS[pos][1] != "m":
+                continue
+            deep = (("inst", ("", "Deep")), [])
+            subs = [("SArg", (("inst", ("", "Mid")), [("SArg", inner)])),
+                    ("SKeyword", (("inst", ("", "Other")), [("SStarArg", (("inst", ("", "make_list")), [("SListArg", deep)]))]))]
+            for extra in (False, True):
+                ss = subs + ([("SArg", (("inst", ("", "Extra")), []))] if extra else [])
+                m = (hk, pos, ss)
+                cls = dict(name="K", bases=[], members=place(m))
+                f = dict(imports=imps + [("from", x) for x in ("Inner", "Mid", "Deep")] + [("fromas", "OrigExtra", "Extra")], classes=classes + ["Other"])
+                out.append(mk_case(f, cls, "nested", {"position": pos, "form": "nested-deep", "host": host, "slot": "mixed", "extra": extra}))
+    return out
+
+
 def shapes(ref, other):
     r = ("ref", ref)
     return [("plain", r), ("gen1", ("gen1", "List", r)), ("optional", ("gen1", "Optional", r)),
@@ -144,13 +212,24 @@ def rand_class(rng, allow_qualified=True):
             return t
         return rng.choice([("none",), ("str",)])
 
-    def rmention():
+    def rkind():
         k = rng.random()
         if k < 0.7:
-            return (("inst", rref()), rng.choice(EXPR_POS))
+            return ("inst", rref())
         if k < 0.85:
-            return (("attr", "self", rng.choice(["x", "y", "D0"])), rng.choice(EXPR_POS))
-        return (("call", rng.choice(["self", "other"]), rng.choice(["run", "D1"])), rng.choice(EXPR_POS))
+            return ("attr", "self", rng.choice(["x", "y", "D0"]))
+        return ("call", rng.choice(["self", "other"]), rng.choice(["run", "D1"]))
+
+    def rnode(depth):
+        k = rkind()
+        subs = []
+        if k[0] != "attr" and depth < 3 and rng.random() < (0.45 if depth == 0 else 0.3):
+            subs = [(rng.choice(cg.SLOTS), rnode(depth + 1)) for _ in range(rng.randint(1, 3))]
+        return (k, subs)
+
+    def rmention():
+        k, subs = rnode(0)
+        return (k, rng.choice(EXPR_POS), subs) if subs else (k, rng.choice(EXPR_POS))
 
     members = []
     for j in range(rng.randint(1, 5)):
@@ -159,13 +238,13 @@ def rand_class(rng, allow_qualified=True):
             members.append(("attr", "f%d" % j, rty()))
         elif k < 0.35:
             m = rmention()
-            members.append(("stmt", (m[0], rng.choice(["PClassBody", "PClassAssignValue"]))))
+            members.append(("stmt", (m[0], rng.choice(["PClassBody", "PClassAssignValue"])) + tuple(m[2:])))
         else:
             body = []
             for _ in range(rng.randint(0, 4)):
                 m = rmention()
                 if cg.POS[m[1]][1] == "c":
-                    m = (m[0], "PBody")
+                    m = (m[0], "PBody") + tuple(m[2:])
                 body.append(m)
             members.append(("method", dict(name="m%d" % j, decos=rng.choice([[], [], ["property"], ["staticmethod"], ["classmethod"]]),
                                            params=[rty() if rng.random() < 0.5 else None for _ in range(rng.randint(0, 2))],
@@ -187,7 +266,7 @@ def variants(rng, file, cls):
         x = rng.choice(md["body"])
         md["body"].insert(rng.randint(0, len(md["body"])), x)
         if rng.random() < 0.5:
-            md["body"].append((x[0], rng.choice(EXPR_POS) if cg.POS[x[1]][2] == "e" and cg.POS[x[1]][1] == "m" else x[1]))
+            md["body"].append((x[0], rng.choice(EXPR_POS) if cg.POS[x[1]][2] == "e" and cg.POS[x[1]][1] == "m" else x[1]) + tuple(x[2:]))
     elif c["members"]:
         m = copy.deepcopy(rng.choice(c["members"]))
         if m[0] == "method":
@@ -211,6 +290,9 @@ def variants(rng, file, cls):
     def ren_ref(r):
         return ("", "Renamed9") if r == ("", cls["name"]) else r
 
+    def ren_kind(k):
+        return ("inst", ren_ref(k[1])) if k[0] == "inst" else k
+
     def ren_ty(t):
         if t is None:
             return None
@@ -226,13 +308,12 @@ def variants(rng, file, cls):
         if m[0] == "attr":
             nm.append(("attr", m[1], ren_ty(m[2])))
         elif m[0] == "stmt":
-            k = m[1][0]
-            nm.append(("stmt", ((("inst", ren_ref(k[1])) if k[0] == "inst" else k), m[1][1])))
+            nm.append(("stmt", cg.map_kinds(m[1], ren_kind)))
         else:
             md = m[1]
             md["params"] = [ren_ty(p) for p in md["params"]]
             md["ret"] = ren_ty(md["ret"])
-            md["body"] = [((("inst", ren_ref(k[1])) if k[0] == "inst" else k), p) for k, p in md["body"]]
+            md["body"] = [cg.map_kinds(x, ren_kind) for x in md["body"]]
             nm.append(m)
     c["members"] = nm
     out.append(("rename_self", file, c, "same"))
@@ -244,7 +325,7 @@ def variants(rng, file, cls):
     # one new distinct coupled class
     f = copy.deepcopy(file)
     c = copy.deepcopy(cls)
-    how = rng.choice(["base", "attr", "param", "return", "inst_from", "inst_fromas", "inst_local"])
+    how = rng.choice(["base", "attr", "param", "return", "inst_from", "inst_fromas", "inst_local", "inst_nested", "inst_nested"])
     ref = ("", "Fresh1")
     if how == "base":
         c["bases"].append(ref)
@@ -263,7 +344,33 @@ def variants(rng, file, cls):
             f["classes"].append("Fresh1")
         pos = rng.choice([p for p in EXPR_POS if cg.POS[p][1] == "m"])
         meths = [m for m in c["members"] if m[0] == "method"]
-        if meths:
+        hosts = [(md, i) for _, md in meths for i, x in enumerate(md["body"]) if x[0][0] in ("inst", "call")]
+        if how == "inst_nested":
+            # as one more argument of a call that is already there (or of a new call of a known class / plain function)
+            f["imports"].append(("from", "Fresh1"))
+            sub = (rng.choice(cg.SLOTS), (("inst", ref), []))
+            if hosts and rng.random() < 0.7:
+                md, i = rng.choice(hosts)
+                x = md["body"][i]
+
+                def graft(node, depth):
+                    k, subs = node
+                    inner = [j for j, (_, n) in enumerate(subs) if n[0][0] in ("inst", "call")]
+                    if inner and depth < 3 and rng.random() < 0.5:
+                        j = rng.choice(inner)
+                        return (k, subs[:j] + [(subs[j][0], graft(subs[j][1], depth + 1))] + subs[j + 1:])
+                    return (k, subs + [sub])
+
+                k, subs = graft((x[0], cg.m_subs(x)), 0)
+                md["body"][i] = (k, x[1], subs)
+            else:
+                hk = rng.choice([("inst", rng.choice([b for b in c["bases"] if not b[0]] or [("", "make_host")])), ("inst", ("", "make_host")), ("call", "self", "build")])
+                apos = rng.choice([p for p in ASSIGN_LIKE if cg.POS[p][1] == "m"])
+                if meths:
+                    rng.choice(meths)[1]["body"].append((hk, apos, [sub]))
+                else:
+                    c["members"].append(("method", dict(name="fresh_method", decos=[], params=[], ret=None, body=[(hk, apos, [sub])])))
+        elif meths:
             rng.choice(meths)[1]["body"].append((("inst", ref), pos))
         else:
             c["members"].append(("method", dict(name="fresh_method", decos=[], params=[], ret=None, body=[(("inst", ref), pos)])))
@@ -374,6 +481,22 @@ def check_position_table(ck):
             src = cg.file_src(dict(imports=[], classes=[]), dict(name="K", bases=[], members=members))
             reqs.append({"op": "find-path", "src": src, "marker": marker})
             meta.append((pname, kind[0], row, src))
+    # argument slots: Syntax.v slot_path against buildCall / buildCallArguments
+    out = lib.coq_eval("C13_slots", REQ, "Eval vm_compute in (all_slots, slot_table).\n")
+    snames, stable = lib.parse_coq_values(out)[0]
+    stable = [[x.strip('"') if isinstance(x, str) else x for x in row] for row in stable]
+    if list(snames) != cg.SLOTS:
+        ck.broken_ties.append("argument slots of harness/classgen.py and Class/Syntax.v differ: %s vs %s" % (snames, cg.SLOTS))
+        return 0
+    ptab = dict(zip(cg.POS_NAMES, table))
+    for sname, srow in zip(cg.SLOTS, stable):
+        for hpos in ("PBody", "PAssignValue", "PReturnValue"):
+            for host in (("inst", ("", "Host")), ("call", "self", "host")):
+                for kind, marker in ((("inst", ("", "MARK")), "MARK"), (("attr", "self", "mark"), "mark")):
+                    m = (host, hpos, [(sname, (kind, []))])
+                    src = cg.file_src(dict(imports=[], classes=[]), dict(name="K", bases=[], members=[("method", dict(name="run", decos=[], params=[], ret=None, body=[m]))]))
+                    reqs.append({"op": "find-path", "src": src, "marker": marker})
+                    meta.append(("%s in %s" % (sname, hpos), kind[0], ptab[hpos] + srow, src))
     res = lib.driver(reqs)
     bad = 0
     for (pname, k, row, src), r in zip(meta, res):
@@ -470,7 +593,7 @@ def main(tier):
     except Exception as e:
         ck.broken_ties.append("position table check failed: %s" % str(e)[-600:])
 
-    cases = position_matrix() + annotation_matrix() + threshold_cases() + builtin_core_cases()
+    cases = position_matrix() + nested_matrix() + annotation_matrix() + threshold_cases() + builtin_core_cases()
     # built-ins included: tie only
     for c in annotation_matrix()[::7] + position_matrix()[7::23]:
         c = dict(c, inc=True)
@@ -595,7 +718,8 @@ def main(tier):
     ck.cov.update({
         "evaluations": len(cases) + n_table + n_e2e,
         "distinct_nontrivial": len(distinct),
-        "rule": "position x import-form matrix (one instantiation per class), base/annotation form x shape x place matrix, "
+        "rule": "position x import-form matrix (one instantiation per class), nested matrix (an instantiation hidden in the argument list of another call: "
+                "host kind x argument slot x statement context, full cross for assignment-like contexts, depth up to 4, one-more-argument pairs), base/annotation form x shape x place matrix, "
                 "threshold lattice (0..10 dependencies x 10 threshold pairs), random classes with 5 metamorphic variants each "
                 "(repeat, reorder, rename self, add unrelated, add one coupled class), parser position table (find-path), CLI runs; "
                 "distinct = distinct source texts",
